@@ -168,8 +168,8 @@ func checkC13(c *Ctx, r *Report) {
 			r.Check(isNilConst(sum.Call.Args[0]), "HASH-INPUT-SEQUENCE", "sm2.ZA Sum(nil)", p.InstrPos(sum), "the digest is Sum(nil): nothing is prepended")
 			for _, b := range fn.Blocks {
 				for _, in := range b.Instrs {
-					if ret, ok := in.(*ssa.Return); ok && isNilConst(ret.Results[1]) {
-						r.Check(ret.Results[0] == ssa.Value(sum), "HASH-INPUT-SEQUENCE", "sm2.ZA returns the digest", p.InstrPos(ret), "success return yields the Sum result")
+					if ret, ok := in.(*ssa.Return); ok && isNilConst(retVals(ret)[1]) {
+						r.Check(retVals(ret)[0] == ssa.Value(sum), "HASH-INPUT-SEQUENCE", "sm2.ZA returns the digest", p.InstrPos(ret), "success return yields the Sum result")
 					}
 				}
 			}
@@ -365,7 +365,7 @@ func resultsReturnedUnchanged(call *ssa.Call) bool {
 		case *ssa.Extract:
 			for _, r2 := range *x.Referrers() {
 				ret, ok := r2.(*ssa.Return)
-				if !ok || x.Index >= len(ret.Results) || ret.Results[x.Index] != ssa.Value(x) || len(ret.Results) != n {
+				if !ok || x.Index >= len(retVals(ret)) || retVals(ret)[x.Index] != ssa.Value(x) || len(retVals(ret)) != n {
 					return false
 				}
 			}
@@ -413,7 +413,7 @@ func c13IdLevel(r *Report, p *Prog, name, callee string, wantArgs []string) {
 					problems = append(problems, "error arm continues into "+c2.Call.StaticCallee().Name())
 				}
 				if ret, ok := in.(*ssa.Return); ok {
-					if !provablyNonNilError(ret.Results[len(ret.Results)-1], g.Err) {
+					if !provablyNonNilError(retVals(ret)[len(retVals(ret))-1], g.Err) {
 						problems = append(problems, "error arm does not return ZA's error")
 					}
 				}
